@@ -225,16 +225,16 @@ fn run_case(c: &Case) -> Result<Res, String> {
 
 pub fn check(tier: Tier, threads: usize) -> CheckOutcome {
     let t0 = Instant::now();
-    let limits: Vec<u32> = if tier == Tier::Quick { vec![1024, 4096] } else { vec![1024, 4096, 65536, 1 << 20, 4 << 20] };
-    let all_ops: Vec<u8> = (0u8..=0x24).filter(|o| *o != 0x1b && *o != 0x1f && *o != op::QUIT && *o != op::QUITQ).collect();
-    let few_ops: Vec<u8> = vec![op::SET, op::GET, op::NOOP, op::INCR, op::APPEND, op::SETQ, op::TOUCH];
+    let limits: Vec<u32> = if tier == Tier::Quick { vec![1024, 4096, 65536] } else { vec![1024, 4096, 65536, 1 << 20, 4 << 20] };
+    let all_ops: Vec<u8> = (0u8..=0x24).filter(|o| *o != 0x1b && *o != 0x1f).collect();
+    let few_ops: Vec<u8> = vec![op::SET, op::GET, op::NOOP, op::INCR, op::APPEND, op::SETQ, op::TOUCH, op::QUIT, op::QUITQ];
     let store_ops: Vec<u8> = vec![op::SET, op::ADD, op::REPLACE, op::SETQ];
     let mut cases: Vec<Case> = vec![];
     for &limit in &limits {
         let big_limit = limit > 4096;
-        let ops = if big_limit || tier == Tier::Quick && limit == 4096 { &few_ops } else { &all_ops };
+        let ops = if big_limit { &few_ops } else { &all_ops };
         let mut lens = vec![limit + 1, 2 * limit];
-        if !(tier == Tier::Quick) || limit == 1024 {
+        if tier == Tier::Thorough || limit <= 4096 {
             lens.push(limit + 200_000);
         }
         for &l in &lens {
@@ -250,9 +250,7 @@ pub fn check(tier: Tier, threads: usize) -> CheckOutcome {
                             if !reachable && b != 0 && b != 1 {
                                 continue;
                             }
-                            if tier == Tier::Quick && position == 2 && !pregrown {
-                                continue;
-                            }
+
                             cases.push(Case { limit, body_len: l, opcode: opc, position, b, pregrown });
                         }
                     }
